@@ -749,12 +749,11 @@ func (w *World) exec(line string) Result {
 				break
 			}
 			kv := strings.SplitN(kvp, ":", 2)
-			dcs = append(dcs, sdk.NewDecCoinFromDec(kv[0], decTok(kv[1]))) // in the order given: the first configured denomination is the first listed
+			// in the order given: the first configured denomination is the first listed. Built without the constructor's checks: what
+			// is fit to be a price is for the parameter's own validator to say
+			dcs = append(dcs, sdk.DecCoin{Denom: strings.TrimPrefix(kv[0], "="), Amount: decTok(kv[1])})
 		}
 		p.GasPrices = dcs
-		if err := p.Validate(); err != nil {
-			return Result{Line: "err", Detail: err.Error()}
-		}
 		if err := w.govParams(stypes.ModuleName, map[string]string{string(stypes.KeyGasPrices): string(w.A.LegacyAmino().MustMarshalJSON(p.GasPrices))}); err != nil {
 			return Result{Line: "err", Detail: err.Error()}
 		}
